@@ -59,11 +59,13 @@ class DaqFile(object):
                 if ch['name'] in names:
                     out.append(enc_str(e, self.path(ch)) + struct.pack(e + 'II', 0xFFFFFFFF, 0))
             return b''.join(out)
-        extra = self.extra_objects if kind == 'full' else []
-        out = [struct.pack(e + 'I', len(self.chans) + len(extra))]
+        extra = self.extra_objects if kind in ('full', 'explicit') else []
+        off = (seg or {}).get('inactive', set()) if kind == 'explicit' else set()
+        chans = [ch for ch in self.chans if ch['name'] not in off]
+        out = [struct.pack(e + 'I', len(chans) + len(extra))]
         for p in extra:
             out.append(enc_str(e, p) + struct.pack(e + 'II', 0xFFFFFFFF, 0))
-        for ch in self.chans:
+        for ch in chans:
             out.append(enc_str(e, self.path(ch)))
             if kind == 'same':
                 out.append(struct.pack(e + 'I', 0))
@@ -78,7 +80,7 @@ class DaqFile(object):
                         out.append(struct.pack(e + 'IIIII', s['t'], s['buf'], s['off'], 0, s['id']))
                 out.append(struct.pack(e + 'I', len(self.widths)))
                 out.extend(struct.pack(e + 'I', w) for w in self.widths)
-            pl = self.props.get(self.path(ch), []) if kind == 'full' else []
+            pl = self.props.get(self.path(ch), []) if kind in ('full', 'explicit') else []
             out.append(struct.pack(e + 'I', len(pl)))
             for name, code, payload_fn in pl:
                 out.append(enc_str(e, name) + struct.pack(e + 'I', code) + payload_fn(e))
@@ -113,16 +115,18 @@ class DaqFile(object):
             out += buf
         return bytes(out)
 
-    def encode(self, endians=None, marker_last=False):
-        """-> (data bytes, index bytes, layout [dict(start, data_start, end, nchunks)])"""
+    def encode(self, endians=None, marker_last=False, explicit=False):
+        """-> (data bytes, index bytes, layout [dict(start, data_start, end, nchunks)])
+        explicit=True: every segment restates its object list in full (new object list, only the channels that have data
+        in it, every raw data index written out) - the fully explicit encoding of the same content."""
         out, idx, lay = bytearray(), bytearray(), []
         for i, seg in enumerate(self.segs):
             e = (endians[i] if endians else seg['endian'])
-            kind = seg['meta']
+            kind = 'explicit' if explicit else seg['meta']
             meta = b'' if kind == 'none' else self._meta(e, kind, seg)
             data = b''.join(self._chunk_bytes(seg, e, k) for k in range(seg['nchunks']))
             mask = (TOC['raw'] | TOC['daqmx'] | (TOC['meta'] if kind != 'none' else 0) |
-                    (TOC['newobj'] if kind == 'full' else 0) | (TOC['big'] if e == '>' else 0))
+                    (TOC['newobj'] if kind in ('full', 'explicit') else 0) | (TOC['big'] if e == '>' else 0))
             nxt = 0xFFFFFFFFFFFFFFFF if (marker_last and i == len(self.segs) - 1) else len(meta) + len(data)
             lead = struct.pack('<i', mask) + struct.pack(e + 'iQQ', 4713, nxt, len(meta))
             start = len(out)
